@@ -38,6 +38,23 @@ CHECKS["C10"] = dict(
     technique="SMT translation validation of index-rewriting passes (z3 NRA) on bounded index-notation skeletons",
     design="§4 C10", engine="E1")
 
+CHECKS["C09"] = dict(
+    level="translation_validation",
+    text="cancel_jacobian_products (after remove_component_tensors) runs on seeded J/K/Identity contractions "
+         "(both orders, interchanged sums, the same Index object in two contractions), on reciprocal/nested power "
+         "patterns and on post-derivative expressions produced by the real pipeline for Piola elements; z3 proves "
+         "in == out for every J (K defined as its inverse / pseudo-inverse, detJ of either sign) and all field values.",
+    technique="SMT translation validation (z3 NRA, radicals by side facts/rewriting) of the cancellation pass",
+    design="§4 C09", engine="E1")
+CHECKS["C08"] = dict(
+    level="translation_validation",
+    text="apply_function_pullbacks runs per element kind (all seven pull backs, rank-raised variants, nested mixed, "
+         "symmetric with heterogeneous sub-elements) on affine cells incl. immersed ones; z3 proves the rewritten "
+         "physical value equals the push-forward written from its definition for all reference values and all J; "
+         "FunctionSpace.value_shape is compared with the shape by definition.",
+    technique="SMT translation validation (z3 NRA) of pullback application against push-forward definitions",
+    design="§4 C08", engine="E1")
+
 NOT_APPLICABLE = {
     "C11": "Signature injectivity is injectivity of string renderings (repr/str, numpy array printing, float "
            "formatting) composed with sha512: CrossHair cannot confirm it, z3/cvc5 string theories answer unknown, "
